@@ -462,6 +462,11 @@ func (self *VM) Wait() (coreNum uint, i *value.VmInterrupt) {
 			select {
 			case i := <-core.SignalHandle:
 				if i == nil {
+					self.Cores.Lock.RUnlock()
+
+					// Shorten the list under the write lock: a core spawned between the two
+					// locks must not be dropped from it.
+					self.Cores.Lock.Lock()
 					newCores := make([]Core, 0)
 
 					for _, coreIter := range self.Cores.Cores {
@@ -472,9 +477,6 @@ func (self *VM) Wait() (coreNum uint, i *value.VmInterrupt) {
 						newCores = append(newCores, coreIter)
 					}
 
-					self.Cores.Lock.RUnlock()
-
-					self.Cores.Lock.Lock()
 					self.Cores.Cores = newCores
 					self.Cores.Lock.Unlock()
 
